@@ -21,6 +21,13 @@
 (*            - each also in masked form (mraw ..), where the components   *)
 (*            that are memory addresses under Dev are blanked             *)
 (*                                                                         *)
+(*   cobj     for every page the call interpreted: the number of objects   *)
+(*            in the document's object cache (PDFDocument._cached_objs)    *)
+(*            before the page, the deep content summary of those objects   *)
+(*            before the page and recomputed after it (oldafter)           *)
+(*                                                                         *)
+(* CachedObjectsAsParsed   interpreting a page changes no object that was  *)
+(*                         in the document's object cache before it        *)
 (* SharedTablesImmutable   a table of class "immutable" is unchanged       *)
 (* CachesAppendOnly        in an "append" table entries present before the *)
 (*                         call are unchanged, the table only grows        *)
@@ -55,6 +62,7 @@ Get(m, k) == m[CHOOSE i \in 1..Len(m) : m[i][1] = k][2]
 SharedTablesImmutable(ev) == \A i \in 1..Len(ev.tabs) :
                                 ev.tabs[i].cls = "immutable" => ev.tabs[i].after = ev.tabs[i].before /\ ev.tabs[i].na = ev.tabs[i].nb
 CachesAppendOnly(ev) == \A i \in 1..Len(ev.tabs) : ev.tabs[i].oldafter = ev.tabs[i].before /\ ev.tabs[i].na >= ev.tabs[i].nb
+CachedObjectsAsParsed(ev) == \A i \in 1..Len(ev.cobj) : ev.cobj[i].oldafter = ev.cobj[i].before /\ ev.cobj[i].na >= ev.cobj[i].nb
 NothingBetweenCalls(ev) == tabs = <<>> \/ (Len(tabs) = Len(ev.tabs) /\ \A i \in 1..Len(tabs) : tabs[i] = ev.tabs[i].before)
 Functional(ev) == \A i \in 1..Len(ev.results) :
                      LET r == ev.results[i] IN
@@ -68,7 +76,8 @@ Remember(m, rs, i) == IF i > Len(rs) THEN m
 
 Step == /\ t <= N /\ e <= Len(Traces[t].events)
         /\ LET ev == Traces[t].events[e] IN
-             /\ (SharedTablesImmutable(ev) /\ CachesAppendOnly(ev) /\ NothingBetweenCalls(ev) /\ Functional(ev)) = TRUE
+             /\ (SharedTablesImmutable(ev) /\ CachesAppendOnly(ev) /\ NothingBetweenCalls(ev) /\ CachedObjectsAsParsed(ev)
+                 /\ Functional(ev)) = TRUE
              /\ tabs' = [i \in 1..Len(ev.tabs) |-> ev.tabs[i].after]
              /\ memo' = Remember(memo, ev.results, 1)
         /\ e' = e + 1 /\ UNCHANGED t
